@@ -282,11 +282,11 @@ def proof_counterexample(proof):
         m = re.search(r"^CEX (.*)$", out, re.M)
         if m:
             return "ValidateGen: " + m.group(1)
-    if "AtomsGen" in text:
+    if re.search(r"Atoms[A-Z]\w*\.lean|AtomsGen|ConvGen|WriteGen", text):          # Atoms<Group>.lean, ConvGen.lean, WriteGen<File>.lean
         rc, out = run(["lake", "env", "lean", "--run", "Cex/AtomsCex.lean"], cwd=LEAN)
         m = re.search(r"^CEX (.*)$", out, re.M)
         if m:
-            return "AtomsGen: " + m.group(1)
+            return "regenerated expression: " + m.group(1)
     if "FiltersGen" in text:
         rc, out = run(["lake", "env", "lean", "--run", "Cex/FiltersCex.lean"], cwd=LEAN)
         m = re.search(r"^CEX (.*)$", out, re.M)
